@@ -997,7 +997,8 @@ def run_cases(ctx, cases: List[dict], monitor, workers=("asyncio", "trio"), tag:
                              {"labels_before": rq["labels"][max(0, r["index"] - 8): r["index"] + 1]})
             else:
                 ctx.traces_validated += 1
-                diffs = compare(m, an)
+                # the observation must agree with one of the model runs that the labels leave possible
+                diffs = min((compare({"final": f}, an) for f in (m.get("finals") or [m["final"]])), key=len)
                 if diffs:
                     ctx.disagree("conn.projection", {**short, "worker": worker}, diffs[:6], {"closed_at": an["closed_at"], "done_at": an["done_at"]})
         pending.clear()
